@@ -324,3 +324,23 @@ def run(chk):
     chk.guard("R1", lambda: r1(chk, cells, info["quote_trait"]))
     chk.guard("R2", lambda: r2(chk, cells, info["quote_trait"]))
     chk.guard("R3", lambda: r3(chk))
+
+    def r4():
+        # R2/R3 splice user expressions as opaque well-formed expressions. That is only sound if no unsubstituted ~ / @ survives
+        # (`~` and `@` are not expression tokens): the substitution contract of C10 is imported as a necessary condition.
+        from ..core import Check
+        from . import c10
+        sub = Check("C10", chk.repo, chk.tier)
+        sub.guard("R1", lambda: c10.r1(sub))
+        sub.guard("R3", lambda: c10.r3(sub))
+        chk.rule("R4", "no placeholder token can survive into the output: user expressions reach templates only through quote_action, whose substitution is total (C10.R1/R3)", floor=15)
+        for r_, why in sub.inconclusive:
+            chk.inconc("R4", why)
+        for i in sub.instances:
+            if i.rule not in ("R1", "R3"):
+                continue
+            if i.ok:
+                chk.ok("R4", "subst:" + i.key, i.file, i.line)
+            else:
+                chk.bad("R4", "subst:" + i.key, i.file, i.line, i.what, i.expected, i.found)
+    chk.guard("R4", r4)
